@@ -7,6 +7,21 @@ ALL = ["C%02d" % i for i in range(1, 20)]
 
 # id -> (category, technique, level text, level note, design ref)
 CHECKS = {
+    "C08": ("exploration",
+            "bounded exhaustive enumeration of name-instantiated derivation trees against a named scope resolver",
+            "Every derivation tree of grammar.y up to 7/8 tokens (class alphabet) and 11/13 tokens (let and binder slices), with every assignment of a 3-name pool (including `_`, a keyword prefix and a non-ASCII name) to every identifier leaf, is parsed by the real parser and compared with a named scope resolver: predicted faults must be reported with the right kind and identifier, fault-free programs must carry exactly the predicted de Bruijn index at every occurrence. Exhaustive within the bounds.",
+            "Trusted: the named resolver in engine/src/model/surface.rs (parameter scopes over body/codomain only; a let spine is one group scoping over all annotations, definitions and the body; `_` never binds). Follow-up diagnostic counts are not compared.",
+            "DESIGN.md 6/C08"),
+    "C11": ("exploration",
+            "bounded exhaustive enumeration of de Bruijn terms and operation arguments against named substitution",
+            "Every hole-free term up to 5/6 nodes over every term former (groups of 1-3 definitions; indices < 4) and up to 7/8 nodes over a reduced former set is pushed through the real free_variables, signed_shift (4 cutoffs x 7 amounts, plus the algebraic laws) and open (4 indices x up to 40 inserted terms x all insertion shifts); every result is compared with a named reference semantics in which a shift is insertion/removal of names in a context and opening is substitution for a name.",
+            "Trusted: engine/src/model/subst.rs (90 lines; only looks at free occurrences and translates them through name positions, so it shares no index arithmetic with gram).",
+            "DESIGN.md 6/C11"),
+    "C16": ("exploration",
+            "bounded exhaustive enumeration of parser outputs with a print / re-read round trip",
+            "Every sentence of grammar.y up to 5/6 tokens (full alphabet), 7/9 tokens (class alphabet) and 11-17 tokens (eight sub-grammar slices, including every binder form and let groups as binder domains) is parsed; the term is printed by gram's Display, re-tokenized and re-parsed in the same scope, and must equal the original up to names of unused function-type parameters and hole identity.",
+            "Trusted: the comparison relation (engine/src/props/c16.rs). One genuine defect is recorded as a known finding (F-PRINT-IMPLICIT-PI, pinned by an existing unit test) with a defect-model classifier.",
+            "DESIGN.md 6/C16"),
     "C14": ("exploration",
             "bounded exhaustive enumeration of strings, token sequences, edited sentences and byte files in crash-isolated workers",
             "Every string up to the C09 bounds, every token sequence up to length 4/5 over all 29 token symbols and 5/6 over a 21-symbol class alphabet (including streams tokenize itself never emits), and every grammar.y sentence up to 5/7 tokens with every single-token deletion, substitution and insertion is pushed through the real tokenize and parse in worker processes with the same 16 MiB stack as the shipped binary; a panic is caught and reported with its message, an abort or watchdog expiry is attributed to the case in flight. The real `gram check` binary is launched on every byte string of length <= 1, byte pairs, invalid-UTF-8 mutations of the examples, an empty / missing file and a directory, and must honour the exit-code / stdout / stderr contract and agree with the in-process pipeline.",
